@@ -18,7 +18,7 @@ struct Rec : verif::SyncHooks {
 	void StringRef(bool, NiStringRef* s, std::streamsize) override { strs.push_back(s); }
 };
 
-int instances() { return g_cfg.tier ? 60 : 8; }
+int instances() { return g_cfg.tier ? 60 : 24; }
 
 void run(size_t idx) {
 	const TypeDB& db = typeDB();
